@@ -104,12 +104,19 @@ Definition tkey (c : circuit) (e : edge) : nat := nkey c (etgt e).
 Definition fixed_D15 : bool := true.
 Definition fixed_D34 : bool := true.
 Definition nokey_steps : nat := if fixed_D15 then 0 else 1.
+(* D118 (repaired in /repo, switch on): a delay of at most one step is neglected PER EDGE (set to 0 before the group decision).
+   Before the fix (rsteps_before_fix) a one-step delay was realised as a one-step ring-buffer delay whenever a sibling edge of the same
+   (merged) source variable had a delay of >= 2 steps, and dropped otherwise.  Such delays are outside the property (g_delays_ge2). *)
+Definition fixed_one_step_per_edge : bool := true.
+Definition neglect (k : nat) : nat := if fixed_one_step_per_edge && Nat.leb k 1 then O else k.
 Definition rsteps (dt : Qc) (e : edge) : nat :=
   match ed e with
   | NoKey => nokey_steps
   | ExplNone => if fixed_D34 then nokey_steps else steps_of 1%Qc dt
-  | Delay d => steps_of d dt
+  | Delay d => neglect (steps_of d dt)
   end.
+Definition rsteps_before_fix (dt : Qc) (e : edge) : nat :=
+  match ed e with NoKey | ExplNone => O | Delay d => steps_of d dt end.
 Definition is_delayed (e : edge) : bool := match ed e with Delay _ => true | _ => false end.
 
 Definition group (c : circuit) (g : nat) : list edge := filter (fun e => Nat.eqb (skey c e) g) (cedges c).
